@@ -142,6 +142,19 @@ struct Stats {
 	max_leaves: u64,
 	histories: u64,
 	oracle_fails: u64,
+	/// evaluations of the reference oracle (after every step, printed or silent)
+	oracle_evals: u64,
+	/// histories of the unit-kind family, by kind sequence
+	kind_histories: u64,
+	kind_units: BTreeMap<String, u64>,
+	/// rewinds whose target position equals the current size (undoing removal-only / empty units)
+	rewinds_same_size: u64,
+	/// … of those with a non-empty `rewind_rm_pos`
+	rewinds_same_size_readding: u64,
+	/// rewinds committed with nothing else in the unit, followed by reopen
+	rewind_only_commits: u64,
+	/// committed units by kind in the random histories
+	unit_kinds_random: BTreeMap<String, u64>,
 }
 impl Stats {
 	fn op(&mut self, k: &str) {
@@ -229,6 +242,7 @@ impl<'a, T: Kind> Run<'a, T> {
 		};
 		self.st.op("push");
 		self.out.line(&format!("store push {}", hex(&e.ser())), &rhs);
+		self.check(false);
 	}
 
 	fn prune(&mut self, pos0: u64) {
@@ -250,6 +264,7 @@ impl<'a, T: Kind> Run<'a, T> {
 		};
 		self.st.op("prune");
 		self.out.line(&format!("store prune {}", pos0), &rhs);
+		self.check(false);
 	}
 
 	/// rewind the MMR to committed boundary `j` of the current history
@@ -279,11 +294,19 @@ impl<'a, T: Kind> Run<'a, T> {
 		self.out
 			.line(&format!("store rewind {} {}", target.size, bm_list(&bitmap)), &rhs);
 		self.st.op("rewind");
+		if target.size == self.bk.size {
+			self.st.rewinds_same_size += 1;
+			if !rm.is_empty() {
+				self.st.rewinds_same_size_readding += 1;
+			}
+		}
 		self.readded.extend(rm.iter());
 		self.bk.size = target.size;
 		self.bk.unspent = target.unspent.clone();
 		self.bk.elems.truncate(pmmr::n_leaves(target.size) as usize);
 		self.bk.chain.truncate(j + 1);
+		// the oracle right after the rewind: the re-added leaves are unspent again
+		self.check(false);
 	}
 
 	fn sync(&mut self) {
@@ -299,15 +322,14 @@ impl<'a, T: Kind> Run<'a, T> {
 		self.out.line("store sync", rhs);
 		self.st.op("sync");
 		self.st.commits += 1;
+		// every commit is a boundary of its own, also when the size did not change (a unit that
+		// only removes leaves, or an empty unit): a later rewind can target the boundary before it
 		let b = Boundary {
 			size: self.bk.size,
 			unspent: self.bk.unspent.clone(),
 		};
-		if self.bk.chain.last().unwrap().size == b.size {
-			*self.bk.chain.last_mut().unwrap() = b;
-		} else {
-			self.bk.chain.push(b);
-		}
+		self.bk.chain.push(b);
+		self.check(true);
 	}
 
 	fn discard(&mut self, saved: Book<T>) {
@@ -316,6 +338,7 @@ impl<'a, T: Kind> Run<'a, T> {
 		self.out.line("store discard", "ok");
 		self.st.op("discard");
 		self.st.discards += 1;
+		self.check(true);
 	}
 
 	fn compact(&mut self) {
@@ -375,6 +398,7 @@ impl<'a, T: Kind> Run<'a, T> {
 		if let Ok(pl) = PruneList::open(self.dir.join("pmmr_prun.bin")) {
 			self.st.prune_list_sizes.push(pl.len());
 		}
+		self.check(true);
 	}
 
 	fn reopen(&mut self) {
@@ -384,6 +408,7 @@ impl<'a, T: Kind> Run<'a, T> {
 		self.out.line("store reopen", "ok");
 		self.st.op("reopen");
 		self.st.reopens += 1;
+		self.check(true);
 	}
 
 	// ---- observations -------------------------------------------------------------------
@@ -399,8 +424,21 @@ impl<'a, T: Kind> Run<'a, T> {
 		PMMR::at(&mut ba, size).root()
 	}
 
+	/// the reference oracle alone (nothing printed): evaluated after every step
+	fn check(&mut self, committed: bool) {
+		self.observe_inner(committed, false, false);
+	}
+
 	/// observables; `committed` = the backend is in a synced state
 	fn observe(&mut self, committed: bool, full: bool) {
+		self.observe_inner(committed, full, true);
+	}
+
+	/// `emit` = print the observation lines for the driver; the comparison with the unpruned
+	/// reference (root, size, leaf set, n_unpruned_leaves, data and hash of every leaf, proofs) is
+	/// evaluated either way
+	fn observe_inner(&mut self, committed: bool, full: bool, emit: bool) {
+		self.st.oracle_evals += 1;
 		let size = self.bk.size;
 		let n_leaves = pmmr::n_leaves(size);
 		self.st.max_leaves = self.st.max_leaves.max(n_leaves);
@@ -410,7 +448,9 @@ impl<'a, T: Kind> Run<'a, T> {
 		let mut lines: Vec<(String, String)> = vec![];
 		{
 			let elems = &self.bk.elems;
-			let rng = &mut *self.rng;
+			// the silent oracle must not disturb the generator: it samples with a generator of its own
+			let mut own = Rng::new(size.wrapping_mul(0x9e37_79b9_7f4a_7c15) ^ expect_unspent.len() as u64 ^ self.st.oracle_evals);
+			let rng: &mut Rng = if emit { &mut *self.rng } else { &mut own };
 			let be = self.backend.as_mut().unwrap();
 			let usize_ = be.unpruned_size();
 			let sizes = format!("{} {}", be.hash_size(), be.data_size());
@@ -565,11 +605,13 @@ impl<'a, T: Kind> Run<'a, T> {
 				}));
 			}
 		}
-		for (l, r) in lines {
-			// `@n`: position in the run (ignored by the driver) - the same query at a different
-			// point of the history is a different case
-			let tag = self.out.lines;
-			self.out.line(&format!("{} @{}", l, tag), &r);
+		if emit {
+			for (l, r) in lines {
+				// `@n`: position in the run (ignored by the driver) - the same query at a different
+				// point of the history is a different case
+				let tag = self.out.lines;
+				self.out.line(&format!("{} @{}", l, tag), &r);
+			}
 		}
 		for f in fails {
 			self.oracle_fail(f);
@@ -714,12 +756,17 @@ impl<'a, T: Kind> Run<'a, T> {
 			} else {
 				self.rewind_to(j);
 			}
+			// look at the state right after the rewind (driver lines as well)
+			if self.rng.chance(1, 2) {
+				self.observe(false, false);
+			}
 		}
 		// 2. appends and removals
 		let size0 = self.bk.size;
+		let unspent0 = self.bk.unspent.clone();
 		let n_app = if burst {
 			self.rng.range(8, 40)
-		} else if self.rng.chance(1, 12) {
+		} else if self.rng.chance(1, 5) {
 			0
 		} else {
 			self.rng.range(1, 6)
@@ -765,6 +812,15 @@ impl<'a, T: Kind> Run<'a, T> {
 		if self.rng.chance(1, 6) {
 			self.discard(saved);
 		} else {
+			let appended = self.bk.size != size0;
+			let removed = saved_unspent_removed(&self.bk.unspent, &unspent0);
+			let kind = match (appended, removed) {
+				(false, false) => "empty",
+				(true, false) => "append-only",
+				(false, true) => "remove-only",
+				(true, true) => "both",
+			};
+			*self.st.unit_kinds_random.entry(kind.to_string()).or_insert(0) += 1;
 			self.sync();
 		}
 		self.observe(true, true);
@@ -877,6 +933,141 @@ impl<'a, T: Kind> Run<'a, T> {
 		self.plain_unit(n, &[], true);
 	}
 
+	// ---- units of every kind, and the rewinds that undo them ------------------------------
+
+	/// one committed unit of the given kind: 'R' removes leaves and appends nothing (the MMR size
+	/// does not change), 'A' only appends, 'B' does both, 'E' is empty
+	fn kind_unit(&mut self, k: char, salt: u64) {
+		let n_app = match k {
+			'A' | 'B' => 1 + salt % 3,
+			_ => 0,
+		};
+		let mut spends: Vec<u64> = vec![];
+		if k == 'R' || k == 'B' {
+			let us: Vec<u64> = self.bk.unspent.iter().cloned().collect();
+			if !us.is_empty() {
+				let p = us[(salt as usize * 5 + 1) % us.len()];
+				spends.push(p);
+				// every other time the sibling leaf as well (when it is unspent), or a second leaf
+				let i = pmmr::n_leaves(p + 1) - 1;
+				let sib = pmmr::insertion_to_pmmr_index(i ^ 1);
+				if salt % 2 == 0 && self.bk.unspent.contains(&sib) {
+					spends.push(sib);
+				} else if salt % 3 == 0 && us.len() > 2 {
+					let q = us[(salt as usize * 3 + 2) % us.len()];
+					if q != p {
+						spends.push(q);
+					}
+				}
+			}
+		}
+		*self.st.kind_units.entry(k.to_string()).or_insert(0) += 1;
+		self.plain_unit(n_app, &spends, true);
+	}
+
+	/// Deterministic family over all sequences of unit kinds up to `max_len`: a base history
+	/// (optionally with a compaction, so that the prune list holds a subtree root and a lone
+	/// leaf), the units of the sequence, each committed, then a rewind across the last `depth`
+	/// of them with `rewind_rm_pos` = the leaves those units removed - for a sequence ending in
+	/// removal-only / empty units the rewind position EQUALS the current size.  The state is
+	/// observed right after the rewind, then the rewind is (0) committed as a unit of its own and
+	/// the backend reopened, (1) discarded and the backend reopened, or (2) followed by new
+	/// appends and a removal of a re-added leaf in the same unit, committed and reopened.
+	fn unit_kinds(&mut self, max_len: usize) {
+		let kinds = ['R', 'A', 'B', 'E'];
+		let mut seqs: Vec<Vec<char>> = vec![];
+		let mut layer: Vec<Vec<char>> = vec![vec![]];
+		for _ in 0..max_len {
+			let mut next = vec![];
+			for s in &layer {
+				for k in kinds.iter() {
+					let mut t = s.clone();
+					t.push(*k);
+					next.push(t);
+				}
+			}
+			seqs.extend(next.iter().cloned());
+			layer = next;
+		}
+		let leaf = |i: u64| pmmr::insertion_to_pmmr_index(i);
+		for (si, seq) in seqs.iter().enumerate() {
+			for with_compact in [false, true] {
+				let depths: Vec<usize> = if seq.len() == 1 { vec![1] } else { vec![1, seq.len()] };
+				for (di, depth) in depths.iter().enumerate() {
+					let variant = (si + di + with_compact as usize) % 3;
+					let salt = si as u64 * 7 + di as u64 * 3 + with_compact as u64;
+					self.fresh();
+					self.st.kind_histories += 1;
+					// base: two committed append-only units
+					self.plain_unit(3 + salt % 2, &[], true);
+					self.plain_unit(3 + (salt / 2) % 3, &[], true);
+					if with_compact {
+						// spend a sibling pair and a lone leaf, commit, compact at the head
+						let sp = vec![leaf(0), leaf(1), leaf(4)];
+						self.plain_unit(0, &sp, true);
+						let head = self.bk.chain.len() - 1;
+						self.compact_at(head);
+						self.observe(true, true);
+						self.observe_prune_file();
+					}
+					for (ui, k) in seq.iter().enumerate() {
+						self.kind_unit(*k, salt + ui as u64);
+					}
+					// rewind across the last `depth` units
+					let n = self.bk.chain.len();
+					let j = n - 1 - depth;
+					let saved = self.bk.clone();
+					self.readded.clear();
+					self.st.rewinds += 1;
+					self.st.rewind_depth_sum += *depth as u64;
+					if self.compacted_once {
+						self.st.rewinds_over_compacted += 1;
+					}
+					if (si + di) % 2 == 1 && *depth > 1 {
+						self.st.rewinds_stepwise += 1;
+						let mut k = n - 1;
+						while k > j {
+							k -= 1;
+							self.rewind_to(k);
+						}
+					} else {
+						self.rewind_to(j);
+					}
+					self.observe(false, true);
+					match variant {
+						0 => {
+							// the rewind alone is the unit of work
+							self.st.rewind_only_commits += 1;
+							self.sync();
+							self.observe(true, true);
+						}
+						1 => {
+							self.discard(saved);
+							self.observe(true, true);
+						}
+						_ => {
+							for _ in 0..(1 + salt % 2) {
+								self.push();
+							}
+							if let Some(p) = self.readded.first().cloned() {
+								self.prune(p);
+							}
+							self.observe(false, false);
+							self.sync();
+							self.observe(true, true);
+						}
+					}
+					self.reopen();
+					self.observe(true, true);
+					self.observe_prune_file();
+					// the history goes on
+					self.kind_unit('B', salt + 5);
+					self.backend = None;
+				}
+			}
+		}
+	}
+
 	fn history(&mut self, units: u64, max_leaves: u64) {
 		self.fresh();
 		// some histories compact often (short rewinds), some rarely (deep rewinds possible)
@@ -905,6 +1096,11 @@ impl<'a, T: Kind> Run<'a, T> {
 		}
 		self.backend = None;
 	}
+}
+
+/// did the unit remove a leaf that was unspent when it started (after its rewind)?
+fn saved_unspent_removed(now: &BTreeSet<u64>, before: &BTreeSet<u64>) -> bool {
+	before.iter().any(|p| !now.contains(p))
 }
 
 fn pl_str(pl: &PruneList) -> String {
@@ -1024,6 +1220,22 @@ fn print_stats(out: &mut Out, name: &str, st: &Stats) {
 	));
 }
 
+fn print_kind_stats(out: &mut Out, name: &str, st: &Stats) {
+	let ku: Vec<String> = st.kind_units.iter().map(|(k, v)| format!("{}={}", k, v)).collect();
+	let kr: Vec<String> = st.unit_kinds_random.iter().map(|(k, v)| format!("{}={}", k, v)).collect();
+	out.raw(&format!(
+		"#STAT [{}] unit-kind family: histories={} units by kind (R remove-only, A append-only, B both, E empty): {}; rewinds with target position == current size: {} (re-adding leaves: {}); rewind-only units committed then reopened: {}; committed units of the random histories by kind: {}; reference oracle evaluated {} times (after every step)",
+		name,
+		st.kind_histories,
+		ku.join(" "),
+		st.rewinds_same_size,
+		st.rewinds_same_size_readding,
+		st.rewind_only_commits,
+		kr.join(" "),
+		st.oracle_evals
+	));
+}
+
 fn run_kind<T: Kind>(out: &mut Out, rng: &mut Rng, histories: u64, units: u64, max_leaves: u64) {
 	let work = std::env::var("VERIF_WORK").expect("VERIF_WORK not set");
 	let dir = PathBuf::from(work).join(format!("store_{}", T::NAME));
@@ -1047,11 +1259,13 @@ fn run_kind<T: Kind>(out: &mut Out, rng: &mut Rng, histories: u64, units: u64, m
 			empty_data_pending: false,
 		};
 		run.scripted();
+		run.unit_kinds(if tier_thorough() { 3 } else { 2 });
 		for _ in 0..histories {
 			run.history(units, max_leaves);
 		}
 	}
 	print_stats(out, T::NAME, &st);
+	print_kind_stats(out, T::NAME, &st);
 }
 
 /// Out-of-protocol stream (model tie only, no reference oracle): rewinds to any earlier committed
